@@ -142,6 +142,33 @@ def run(ctx):
     ctx.floor("growth sites", n_sites, 8)
     for key in PAIRED:
         ctx.need(key in seen_pairs, "strip-pair table entry no longer matches a growth site: {}".format(key))
+    # strip-family calls take a SET of characters: a word-like argument means a prefix/suffix was meant, and
+    # the value loses more than the artefact the sibling added (so the round trip does not close)
+    n_strip = 0
+    for f in index.nontest_funcs():
+        for n in iter_own(f.node):
+            if (
+                isinstance(n, ast.Call)
+                and isinstance(n.func, ast.Attribute)
+                and n.func.attr in ("strip", "lstrip", "rstrip")
+                and n.args
+                and isinstance(n.args[0], ast.Constant)
+                and isinstance(n.args[0].value, str)
+            ):
+                n_strip += 1
+                a = n.args[0].value
+                wordish = len(a) >= 3 and a.isalnum() and len(set(a)) >= 3
+                ctx.ob(
+                    "C08.strip",
+                    f,
+                    n,
+                    not wordish,
+                    ""
+                    if not wordish
+                    else "`.{}({!r})` removes any of the characters {} from the end(s), not the affix {!r}: values that end "
+                    "in one of those letters are over-stripped".format(n.func.attr, a, sorted(set(a)), a),
+                )
+    ctx.count("strip_calls_with_constant_argument", n_strip)
 
 
 def _discharge(index, f, n, slot, art, facts, seen_pairs):
